@@ -39,6 +39,7 @@ class Session:
             cap['globals'] = sys._getframe(1).f_globals
             cap['lt_options'] = lt_options
             cap['port'] = port
+            cap['server_args'] = (fn, option_map, lt_options)
 
         old_argv, old_run, old_err = sys.argv, server.run_server, sys.stderr
         sys.argv = ['yalafi.shell', '--no-config', '--lt-command', 'FAKELT'] + self.argv + ['--as-server', '1']
@@ -64,6 +65,16 @@ class Session:
         self.proofreader = self.g['proofreader']
         self.vars = self.g['vars']
         self.cwd = cwd
+        # the server object lives as long as the session, as in a real --as-server process: it is built by the real
+        # Server.__init__ from the arguments shell.py passed to run_server, only the socket set-up is left out
+        import socketserver
+        fn, option_map, lt_options = cap['server_args']
+        old_init = socketserver.TCPServer.__init__
+        socketserver.TCPServer.__init__ = lambda self_, *a, **k: None
+        try:
+            self.httpd = server.Server(('localhost', cap['port']), server.Handler, fn, option_map, lt_options)
+        finally:
+            socketserver.TCPServer.__init__ = old_init
 
         sess = self
 
@@ -129,9 +140,7 @@ class Session:
     def request(self, requ):
         """server emulation: Handler.create_message for one request (dict of lists as parse_qs gives)"""
         from yalafi.shell import server
-        stub = types.SimpleNamespace(server=types.SimpleNamespace(
-            my_lt_options=list(self.lt_options), my_option_map=self.g['lt_option_map'],
-            my_proofreader=self.proofreader.run_proofreader_options))
+        stub = types.SimpleNamespace(server=self.httpd)
         return self._guarded(lambda: server.Handler.create_message(stub, requ))
 
 
